@@ -33,6 +33,8 @@ def obligations(repo):
         v, m = res[0][2], res[0][3]
         ob(f"resolves-the-template-text#{i}", str(v) == "fld!Template.template(self)", str(v))
         ob(f"against-options-overlaid-by-the-parameters#{i}", m.decl().name() == "mix" and str(m.arg(0)) == "o", str(m)[:80])
+        # the overlay binds ':name:' to the escaped string form of each parameter's value (shape recognised by the engine: pdict)
+        ob(f"parameters-bound-as-escaped-string-forms#{i}", m.decl().name() == "mix" and any(d.eq(T.pdict(m.arg(1))) for d in p.defs), str(m)[:80])
         if p.kind == "ok":
             k, t = p.value
             want = T.strform(T.resolve_val(v, m))
